@@ -82,6 +82,44 @@ where
 /// `echo`: after case i the case before it is executed once more and must yield the observation it yielded the first
 /// time; if not, the observation of a call depends on the calls made before it in the same process (a cache, a
 /// thread-local, a static with an incomplete key) and a record `history_dependent` is added for that case.
+/// A stop-watch that a stall of the whole machine cannot advance: it is read in a polling loop, and the time between two
+/// readings counts for at most 300 ms, however long the clock says it took.
+pub struct Budget {
+    last: std::time::Instant,
+    used: Duration,
+}
+
+impl Budget {
+    pub fn now() -> Self {
+        Budget { last: std::time::Instant::now(), used: Duration::ZERO }
+    }
+    pub fn elapsed(&mut self) -> Duration {
+        let t = std::time::Instant::now();
+        self.used += (t - self.last).min(Duration::from_millis(300));
+        self.last = t;
+        self.used
+    }
+}
+
+/// `recv_timeout` whose budget a stall of the whole machine (a snapshot of the sandbox, a frozen VM) cannot use up:
+/// the wait is cut into slices of 100 ms and a slice counts for at most 300 ms, however long the clock says it took.
+pub fn recv_budget<T>(rx: &std::sync::mpsc::Receiver<T>, budget: Duration) -> Result<T, RecvTimeoutError> {
+    let slice = Duration::from_millis(100).min(budget.max(Duration::from_millis(1)));
+    let mut used = Duration::ZERO;
+    loop {
+        let t = std::time::Instant::now();
+        match rx.recv_timeout(slice) {
+            Err(RecvTimeoutError::Timeout) => {
+                used += t.elapsed().min(slice * 3);
+                if used >= budget {
+                    return Err(RecvTimeoutError::Timeout);
+                }
+            }
+            other => return other,
+        }
+    }
+}
+
 pub fn run_cases_from<F>(cases: Vec<Value>, first: usize, timeout: Duration, echo: bool, f: F, sink: &mut dyn FnMut(usize, Vec<Value>))
 where
     F: Fn(&Value) -> Vec<Value> + Send + Sync + 'static,
@@ -126,7 +164,7 @@ where
             }
         });
         loop {
-            match rx.recv_timeout(timeout) {
+            match recv_budget(&rx, timeout) {
                 Ok((i, Ok(recs))) => {
                     sink(i, recs);
                     next = i + 1;
